@@ -120,7 +120,7 @@ def _drive(chk, graph, procs, names, tag, progs, pre):
     traces, anomalies = pre if pre is not None else _explore(progs, procs)
     n_impl = len(traces)
     n_model = 0
-    for prog, sched in (_graph_schedules(graph, chk.pick(400, 3000)) if graph is not None else []):
+    for prog, sched in (_graph_schedules(graph, chk.pick(150, 3000)) if graph is not None else []):
         if prog not in progs:
             continue
         tr, an = drv.run_schedule(prog, procs, sched)
